@@ -84,9 +84,15 @@ impl<'q, C: MlsConfig, E: ExtConfig> Tap<C> for ObsTap<'q, E> {
                             }
                             "proposal" | "commit" => {
                                 if ok && kind == "proposal" && o.manual {
-                                    // the application-side cache of an observer that does not cache on its own
-                                    if o.group.insert_proposal_from_message(w.msgs[k].msg.clone()).is_err() {
-                                        out.push(fail(format!("observer cannot insert the proposal m{k} it just validated")));
+                                    // the application-side cache of an observer that does not cache on its own: either the
+                                    // description returned by the observer itself, or the raw message
+                                    match (res.as_ref().ok(), o.jitter % 2 == 0) {
+                                        (Some(ExternalReceivedMessage::Proposal(desc)), true) => o.group.insert_proposal(desc.clone().cached_proposal()),
+                                        _ => {
+                                            if o.group.insert_proposal_from_message(w.msgs[k].msg.clone()).is_err() {
+                                                out.push(fail(format!("observer cannot insert the proposal m{k} it just validated")));
+                                            }
+                                        }
                                     }
                                 }
                                 if !ok && w.msgs[k].epoch == obs_epoch {
